@@ -12,15 +12,16 @@ equal the original values - None included.
 """
 PROPERTY = "C39"
 LEVEL = "exploration"
-ENGINE = "spec"
+ENGINE = "spec+native"
 TECHNIQUE = "runtime monitor: bind -> independent AES-CBC decrypt vs reference codec; echoed ROWS body decoded by the real handler vs original values"
 LEVEL_TEXT = ("Thousands (quick) to hundreds of thousands (thorough) of generated rows over tables mixing encrypted and plain columns of all "
               "20 scalar types are bound with the real policy, checked against an independent decryption + reference encoding, echoed in an "
               "independently written ROWS body and decoded by the real pure-Python handler; decoded rows must equal the originals incl. "
-              "nulls. Held-on-observed; the compiled (Cython) decoder is not covered here.")
+              "nulls. Every frame is also decoded by the compiled (Cython) list and lazy row decoders of an offline build of the same tree. Held-on-observed.")
 LEVEL_NOTE = ("Trusted base: spec/cqlcodec.py, spec/frames.py, the `cryptography` package's AES/CBC primitive. Parameterized types (list/"
               "set/map/tuple) cannot be named through add_column's type-name argument and are not generated; counters are excluded.")
 WORKERS = 14
+QUICK_TIMEOUT = 1500
 
 TYPES = ['ascii', 'bigint', 'blob', 'boolean', 'date', 'decimal', 'double', 'duration', 'float', 'inet', 'int', 'smallint', 'text',
          'time', 'timestamp', 'timeuuid', 'tinyint', 'uuid', 'varchar', 'varint']
@@ -53,7 +54,7 @@ def run(ctx):
                 "non-trivial = at least one encrypted column")
     ctx.assume("add_column's type-name argument can only name unparameterized types: collections / tuples / UDTs are not generated; counters are excluded")
     ctx.assume("a server stores an encrypted column as blob and echoes the bytes it was sent; an UNSET bound value leaves the stored cell null")
-    ctx.assume("the compiled (Cython) row parser is exercised elsewhere (C07 build); this monitor uses cassandra.protocol._ProtocolHandler")
+    ctx.assume("the compiled (Cython) decoders run in a worker process under an offline build of the checked tree (native/build_ext.py, the C07 helper, cached by source hash under /verif/.cache); one worker process decodes all frames of a run, with a fresh policy object per frame")
 
     def independent_decrypt(key, blob):
         blob = bytes(blob)
@@ -70,6 +71,36 @@ def run(ctx):
     def canon_of(t, x):
         return G.canon_key(t, G.from_driver(t, x))
 
+    def compare_rows(parsed, origin, names, types, enc_flags, rows_canon, wit):
+        ok = True
+        suffix = "" if origin.startswith("pure") else " (%s)" % origin
+        for (canon, states), got in zip(rows_canon, parsed):
+            for nm, t, e, v, x in zip(names, types, enc_flags, canon, got):
+                try:
+                    same = (x is None) if v is None else (x is not None and canon_of(t, x) == G.canon_key(t, v))
+                except Exception:
+                    same = False
+                if not same:
+                    ok = False
+                    mech = "decoded-value-differs"
+                    if v is None:
+                        mech = "null-decoded-as-value"
+                    elif e and isinstance(x, (bytes, bytearray)) and t[0] != 'blob':
+                        mech = "encrypted-column-returned-undecrypted"
+                    ctx.violation(mech + suffix, "%s: column %s %s (%s): stored %r, decoded %r" % (origin, nm, t[0], "encrypted" if e else "plain", v, x), wit)
+                elif suffix:
+                    ctx.count("cells_decoded_by_the_" + origin.replace(' ', '_'))
+                    if e and v is not None:
+                        ctx.count("encrypted_cells_decoded_by_the_compiled_decoders")
+                else:
+                    ctx.count("cells_equal")
+                    if e:
+                        ctx.count("encrypted_cells_equal")
+                        if v is None:
+                            ctx.count("encrypted_null_cells_equal")
+        return ok
+
+    jobs, expected, declared = [], [], {}
     n = ctx.scale(12000, 400000)
     budget = 40 if ctx.quick else 300
     hcount = 0
@@ -337,31 +368,19 @@ def run(ctx):
         if not isinstance(msg, ResultMessage) or msg.parsed_rows is None or len(msg.parsed_rows) != nrows:
             ctx.violation("decoded-rows-missing", "decoded message has rows %r" % (getattr(msg, 'parsed_rows', None),), wit)
             continue
-        ok = True
-        for (canon, states), got in zip(rows_canon, msg.parsed_rows):
-            for nm, t, e, v, x in zip(names, types, enc_flags, canon, got):
-                try:
-                    same = (x is None) if v is None else (x is not None and canon_of(t, x) == G.canon_key(t, v))
-                except Exception:
-                    same = False
-                if not same:
-                    ok = False
-                    mech = "decoded-value-differs"
-                    if v is None:
-                        mech = "null-decoded-as-value"
-                    elif e and isinstance(x, (bytes, bytearray)) and t[0] != 'blob':
-                        mech = "encrypted-column-returned-undecrypted"
-                    ctx.violation(mech, "column %s %s (%s): stored %r, decoded %r" % (nm, t[0], "encrypted" if e else "plain", v, x), wit)
-                else:
-                    ctx.count("cells_equal")
-                    if e:
-                        ctx.count("encrypted_cells_equal")
-                        if v is None:
-                            ctx.count("encrypted_null_cells_equal")
+        ok = compare_rows(msg.parsed_rows, "pure-Python decoder", names, types, enc_flags, rows_canon, wit)
         if ok:
             ctx.count("rows_equal", nrows)
             if any(enc_flags) and len(ctx.samples) < 5 and rng.random() < 0.02:
                 ctx.sample({"columns": wit0["columns"], "row": [repr(v)[:60] for v in rows_canon[0][0]], "bound": rows_cells[0]})
+            # the same frame goes to the compiled decoders (a worker process under the compiled build, fresh policy object per job)
+            jobs.append({'pv': pv, 'iv': (bytes(rng.getrandbits(8) for _ in range(16)) if rng.random() < 0.5 else None), 'body': body, 'no_md': no_md,
+                         'registered': [(cd.ks, cd.table, cd.col, keys[ci], types[ci][0]) for ci, cd in enumerate(cds) if enc_flags[ci]],
+                         'result_md': [(cd.ks, cd.table, cd.col, 'blob' if e else t[0]) for cd, t, e in zip(cds, types, enc_flags)]})
+            expected.append((names, types, enc_flags, rows_canon, dict(wit)))
+            for cd, t, e in zip(cds, types, enc_flags):
+                if e:
+                    declared.setdefault(tuple(cd), set()).add(t[0])
 
         # ---- the helper for simple statements must produce the same ciphertext layout
         for ci, (nm, t, e, v) in enumerate(zip(names, types, enc_flags, rows_canon[0][0])):
@@ -393,13 +412,66 @@ def run(ctx):
             else:
                 ctx.count("encode_and_encrypt_equal")
 
+    # ---------------------------------------------------------------- the compiled (Cython) decoders
+    import fcntl
+    import pickle
+    import subprocess
+    import sys
+    import tempfile
+    import shutil
+    from vlib.run import VERIF
+    from props.c07_compiled_parity import build, QUICK_MODULES
+    os.makedirs(os.path.join(VERIF, ".cache", "native"), exist_ok=True)
+    with open(os.path.join(VERIF, ".cache", "native", ".c39.lock"), "w") as lock:
+        fcntl.flock(lock, fcntl.LOCK_EX)          # thorough fans out over processes: one of them builds, the others find the cache
+        try:
+            root = build(ctx, "O0-subset", ["--opt=-O0", "--only=" + QUICK_MODULES])
+        finally:
+            fcntl.flock(lock, fcntl.LOCK_UN)
+    tmpd = tempfile.mkdtemp(prefix="verif_c39_")
+    try:
+        jf, of = os.path.join(tmpd, "jobs.pkl"), os.path.join(tmpd, "out.pkl")
+        with open(jf, "wb") as f:
+            pickle.dump(jobs, f)
+        env = dict(os.environ, PYTHONPATH='')
+        r = subprocess.run([sys.executable, os.path.join(VERIF, "native", "c39_worker.py"), root, jf, of], capture_output=True, text=True,
+                           timeout=1800, env=env, cwd=tempfile.gettempdir())
+        if r.returncode != 0 or not os.path.exists(of):
+            raise Inconclusive("compiled-decoder worker failed: %s" % ((r.stdout + r.stderr)[-600:],))
+        with open(of, "rb") as f:
+            results = pickle.load(f)
+    finally:
+        shutil.rmtree(tmpd, ignore_errors=True)
+    winfo = results[0]
+    if not (winfo['have_cython'] and winfo['lazy'] and winfo['obj_parser_file'].endswith('.so')):
+        raise Inconclusive("the worker did not load the compiled decoders: %r" % (winfo,))
+    if len(results) - 1 != len(jobs):
+        raise Inconclusive("worker returned %d results for %d jobs" % (len(results) - 1, len(jobs)))
+    for res, (names, types, enc_flags, rows_canon, wit) in zip(results[1:], expected):
+        if 'setup' in res:
+            raise Inconclusive("worker could not set a job up: %s" % (res['setup'][1],))
+        for label in ('list', 'lazy'):
+            origin = "compiled %s decoder" % label
+            got = res[label]
+            if isinstance(got, tuple) and got and got[0] == 'error':
+                ctx.violation("decode-raises (%s)" % origin, "%s: decoding the rows raised %s" % (origin, got[1]), wit)
+                continue
+            if got is None or len(got) != len(rows_canon):
+                ctx.violation("decoded-rows-missing (%s)" % origin, "%s: decoded rows %r" % (origin, got), wit)
+                continue
+            if compare_rows(got, origin, names, types, enc_flags, rows_canon, wit):
+                ctx.count("result_bodies_decoded_by_the_" + origin.replace(' ', '_'))
+    ctx.count("encrypted_columns_decoded_under_two_or_more_declared_types", sum(1 for ts in declared.values() if len(ts) > 1))
     ctx.floor_distinct = 3000 if ctx.quick else 100000
     fl = {"encrypted_values_decrypt_to_reference": 5000, "plain_values_equal": 3000, "result_bodies_decoded": 500, "encrypted_cells_equal": 2000,
           "nulls_bound_encrypted_column": 500, "encode_and_encrypt_equal": 300,
           "results_read_by_a_second_policy_object_with_its_own_iv": 200,
           "values_sharing_a_byte_image_with_a_value_of_another_type": 300,
           "values_of_columns_registered_between_prepare_and_first_bind": 300,
-          "statements_with_markers_over_several_tables": 1000, "statements_prepared_from_a_decoded_PREPARED_body": 1000,
+          "statements_with_markers_over_several_tables": 1000,
+          "cells_decoded_by_the_compiled_list_decoder": 20000, "cells_decoded_by_the_compiled_lazy_decoder": 20000,
+          "encrypted_cells_decoded_by_the_compiled_decoders": 20000, "result_bodies_decoded_by_the_compiled_list_decoder": 3000,
+          "result_bodies_decoded_by_the_compiled_lazy_decoder": 3000, "encrypted_columns_decoded_under_two_or_more_declared_types": 40, "statements_prepared_from_a_decoded_PREPARED_body": 1000,
           "encrypted_values_of_columns_outside_the_first_markers_table": 500,
           "plain_values_of_columns_whose_name_is_registered_in_another_table_of_the_statement": 100, "values_of_columns_registered_between_two_binds": 150,
           "results_with_identical_ciphertext_in_columns_of_different_types": 100}
